@@ -32,7 +32,7 @@ ASSUMPTIONS = [
     "H6 counterexamples are confirmed on the real MD5 / SHA / AES / RC4: directly (R2-R5), or by a bounded search over passwords / salts of the counterexample's shape (Algorithm 2.B, whose "
     "round count depends on real hash values)",
 ]
-OUTSIDE = ["cipher and hash correctness (C libraries / XOR loops): not claimed", "rejection of wrong passwords (needs collision resistance of the real hashes)", "SASLprep normalisation",
+OUTSIDE = ["cipher and hash correctness (C libraries / XOR loops): not claimed", "rejection of wrong passwords (needs collision resistance of the real hashes)", "SASLprep normalisation beyond one real password pair with compatibility characters in H7 (the Unicode tables of _saslprep are not examined)",
            "crypt filters other than V2 / AESV2 / AESV3 / Identity", "passwords longer than 33 bytes (R2-R4) / 3 bytes (R5, R6)"]
 
 
@@ -809,7 +809,8 @@ def h6_r6hash(pattern="cycle", timeout=300, extra=None, part=None, **kw):
 
 
 # ------------------------------------------------------------------------------------------ H7 really encrypted documents, opened in call histories
-DOC_PAIRS = [("", ""), ("user", "owner"), ("", "own"), ("u" * 40, "\u00e9w")]
+DOC_PAIRS = [("", ""), ("user", "owner"), ("", "own"), ("u" * 40, "\u00e9w"), ("p\u00b2", "\ufb01x")]
+COMPAT_PAIR = 4          # compatibility characters (superscript two, fi ligature): an R6 writer stores the hash of the SASLprep form (RFC 4013 step 2: NFKC -> "p2", "fix"); not Latin-1, so only used with the V5 schemes
 DOC_PS = [-44, -3904, -1, -64]
 DOC_HISTORIES = ["alone", "then-other", "then-other-rejected", "other-first"]
 DOC_TEXT = "Hello"
@@ -826,6 +827,9 @@ def _doc_objects(tag):
 
 
 def _pw_bytes(rev, pw):
+    if rev == 6:          # ISO 32000-2 7.6.4.3.2: SASLprep, then UTF-8. For the passwords used here SASLprep is the NFKC step alone (no mapped-to-nothing, prohibited or bidirectional characters)
+        import unicodedata
+        return unicodedata.normalize("NFKC", pw).encode("utf-8")
     return pw.encode("utf-8") if rev >= 5 else pw.encode("latin-1")
 
 
@@ -839,9 +843,9 @@ def _docs_check(sel):
     from pdfminer.pdftypes import resolve1
     from pdfminer.high_level import extract_text
     scheme, other = pdfenc.SCHEMES[sel["scheme"]], pdfenc.SCHEMES[sel["other"]]
-    upw, opw = DOC_PAIRS[sel["pair"]]
+    upw, opw = DOC_PAIRS[sel["pair"] if (scheme >= "v5" or sel["pair"] != COMPAT_PAIR) else 1]
     P, em, caching, hist = DOC_PS[sel["P"]], bool(sel["em"]), bool(sel["caching"]), DOC_HISTORIES[sel["history"]]
-    encA = pdfenc.Encryptor(scheme, *[_pw_bytes(2 if scheme < "v5" else 5, x) for x in (upw, opw)], P=P, encrypt_metadata=em)
+    encA = pdfenc.Encryptor(scheme, *[_pw_bytes(2 if scheme < "v5" else (6 if scheme == "v5-r6" else 5), x) for x in (upw, opw)], P=P, encrypt_metadata=em)
     plain = _doc_objects(b"A")
     dataA = encA.document(plain)
     encB = pdfenc.Encryptor(other, b"bu", b"bo", docid=b"another-doc-id..", filekey=bytes(range(7, 39)))
